@@ -670,6 +670,15 @@ fn c02_check<K: KeyLike>(sut: &mut Sut<K>, kind: Kind, op: &Op, i: usize, out: &
     };
     let was_ghost = |k: u16| matches!(before.find(k), Some((li, _, _)) if li >= kind.n_resident_lists());
     let was_resident = |k: u16| matches!(before.find(k), Some((li, _, _)) if li < kind.n_resident_lists());
+    // walking an iterator of one list (writing through it or not) leaves the values of every
+    // OTHER list alone: a value may only change through a reference to its own entry
+    if let Op::Iter { list, .. } = op {
+        for (j, (b, a)) in before.lists.iter().zip(after.lists.iter()).enumerate() {
+            if j != *list as usize && a != b {
+                return Err(vio(p, i, kind, op, "iter-wrote-elsewhere", format!("step {i} {op:?}: an iterator over list `{}` changed list `{}`: {:?} -> {:?} (values that were never stored for these keys)", kind.list_names()[*list as usize], kind.list_names()[j], b, a)));
+            }
+        }
+    }
     // account for what the PutResult reports
     let mut handle_pr = |pr: &PR, k: u16, s: &mut C02State| -> Result<(), Violation> {
         let prev = s.last.get(&k).copied();
